@@ -283,7 +283,9 @@ class SymSession(_Base):
 class ConcSession(_Base):
     symbolic = False
 
-    def __init__(self, inputs):
+    def __init__(self, inputs, rtol=None):
+        self.rtol = RTOL if rtol is None else rtol
+        self.atol = ATOL if rtol is None else max(ATOL, rtol)
         self.inputs = inputs
         self.results = []        # (label, bool, detail)
         self.observations = []
@@ -368,7 +370,7 @@ class ConcSession(_Base):
             return math.isnan(a) and math.isnan(b)
         if math.isinf(a) or math.isinf(b):
             return a == b
-        return abs(a - b) <= ATOL + RTOL * max(abs(a), abs(b))
+        return abs(a - b) <= self.atol + self.rtol * max(abs(a), abs(b))
 
     def eq(self, a, b):
         return self.same(a, b)
@@ -442,9 +444,9 @@ def plain(x):
     return x
 
 
-def obs_equal(a, b):
+def obs_equal(a, b, tol=1e-7):
     if isinstance(a, list) and isinstance(b, list):
-        return len(a) == len(b) and all(obs_equal(x, y) for x, y in zip(a, b))
+        return len(a) == len(b) and all(obs_equal(x, y, tol) for x, y in zip(a, b))
     if isinstance(a, (bool, str)) or isinstance(b, (bool, str)) or a is None or b is None:
         if isinstance(a, bool) or isinstance(b, bool):
             try:
@@ -460,4 +462,4 @@ def obs_equal(a, b):
         return math.isnan(fa) and math.isnan(fb)
     if math.isinf(fa) or math.isinf(fb):
         return fa == fb
-    return abs(fa - fb) <= 1e-7 + 1e-7 * max(abs(fa), abs(fb))
+    return abs(fa - fb) <= tol + tol * max(abs(fa), abs(fb))
